@@ -694,8 +694,22 @@ func checkC15(p *Prog, r *Report) {
 				if ft.Op != "==" || !ft.Val {
 					return false
 				}
-				a, b := stripVarLines(p.Canon(ft.X)), stripVarLines(p.Canon(ft.Y))
-				return (a == "$conn" && b == "$closedConn") || (a == "$closedConn" && b == "$conn")
+				// one side is the connection the watcher was started for (the *tcpPacketConn parameter), the other the registered one
+				var closed types.Object
+				for i := 0; ; i++ {
+					o := p.paramObj(f, i)
+					if o == nil {
+						break
+					}
+					if typeStr(o.Type()) == "*ice.tcpPacketConn" {
+						closed = o
+					}
+				}
+				isReg := func(e ast.Expr) bool {
+					id, ok := unparen(e).(*ast.Ident)
+					return ok && !p.isObj(id, closed) && typeStr(p.TypeOf(id)) == "*ice.tcpPacketConn"
+				}
+				return closed != nil && ft.Y != nil && ((p.isObj(ft.X, closed) && isReg(ft.Y)) || (p.isObj(ft.Y, closed) && isReg(ft.X)))
 			}) {
 				ok = false
 			}
